@@ -24,6 +24,12 @@ TYPES = {
     "i64": ("i64", "0i64", "-9i64", "77i64", None),
     "u16": ("u16", "0u16", "513u16", "2u16", None),
     "usize": ("usize", "0usize", "3usize", "9usize", None),
+    "unit": ("()", "()", "()", "()", None),                                   # a zero-sized payload
+    "arr2": ("[u8; 2]", "[0u8; 2]", "[1u8, 2u8]", "[3u8, 4u8]", None),
+    "tup": ("(u8, bool)", "(0u8, false)", "(1u8, true)", "(2u8, false)", None),
+    "optstr": ("Option<String>", "None", 'Some(String::from("a"))', 'Some(String::new())', None),
+    # a payload whose Default must never run: only on DISABLED variants (nothing may build the payload of a variant that is left out)
+    "panicdef": ("PanicDefault", "PanicDefault::default()", "PanicDefault(1)", "PanicDefault(2)", None),
     # a payload that mentions the enum itself (special definitions only: the enum supplies its own Default)
     "boxself": ("Box<Self>", "Box::new(::core::default::Default::default())", "Box::new(::core::default::Default::default())",
                 "Box::new(::core::default::Default::default())", None),
@@ -126,6 +132,8 @@ def enum(did, variants, style="none", prefix=None, aci=False, phf=False, perr=Fa
             v["order"] = did * 31 + k + 1
         if "litform" not in v:
             v["litform"] = (did * 7 + k) % 5 % 4        # how the variant's string literals are written in the source
+        if "tcomma" not in v and (did + 2 * k) % 5 == 1:
+            v["tcomma"] = True                           # `V(u8,)`: the field list ends in a comma
     # every fourth definition of a corpus carries the SAME type name (each lives in its own module): a derive must not carry
     # anything over from one expansion to the next
     name = name or ("Shared" if did % 4 == 0 and did > 0 else "E%d" % did)
@@ -229,7 +237,7 @@ def print_variant(v, split, with_strum=True, indent="    "):
     if v["kind"] == "unit":
         body = ident
     elif v["kind"] == "tuple":
-        body = "%s(%s)" % (ident, ", ".join(_field_ty(f) for f in v["fields"]))
+        body = "%s(%s%s)" % (ident, ", ".join(_field_ty(f) for f in v["fields"]), "," if v.get("tcomma") and v["fields"] else "")
     else:
         fs = []
         for f in v["fields"]:
@@ -289,13 +297,18 @@ def print_enum(E, derives, std_derives=("Debug", "Clone", "PartialEq"), strum_pa
     for k, v in enumerate(E["variants"]):
         if mx and mx["k"] == k:
             # an explicit discriminant assembled by the macro_rules! helper from an expression fragment
-            v = dict(v, discx="$e0 * 2 + %d" % mx["r"])
+            v = dict(v, discx=MACRO_EXPR_FORMS[mx.get("form", 0)] % mx["r"])
         lines += print_variant(v, E.get("split"))
     lines.append("}")
     text = "\n".join(lines)
     if E.get("via_macro") or mx:
         text = wrap_in_macro(text, E["name"], exprs=[mx["a"]] if mx else [])
     return text
+
+
+# how the fragment `$e0` (an expression such as `3 + 1`) sits in the discriminant: at the top level, inside parentheses,
+# inside a cast's operand
+MACRO_EXPR_FORMS = ["$e0 * 2 + %d", "($e0 * 2) + %d", "(($e0) * 2 + %d) as _"]
 
 
 def wrap_in_macro(text, name, exprs=()):
